@@ -201,6 +201,33 @@ pub fn c04_scenarios() -> Vec<Scenario> {
         Cfg::default(),
         vec![StreamSpec::new(MsgSpec { head: HeadKind::Big20k, ..m(&[]) }, m(&[1])), StreamSpec { cancel: Cancel::ClientReset { after_chunks: 0, code: 8 }, ..StreamSpec::new(m(&[4]), m(&[4])) }],
     ));
+    // a stream is reset and forgotten at once (reset memory expires immediately) while the peer still sends on it - the
+    // library answers with RST_STREAM by identifier -, another stream completes, then a request starts late: identifiers
+    // keep increasing
+    v.push(mk(
+        "late-request-after-forgotten-reset",
+        Cfg { reset_expire_now: true, ..Cfg::default() },
+        vec![
+            StreamSpec { cancel: Cancel::ClientReset { after_chunks: 1, code: 8 }, s_recv: RecvMode::Late, ..StreamSpec::new(m(&[2, 2]), m(&[5, 5, 5])) },
+            StreamSpec::new(m(&[]), m(&[2])),
+            StreamSpec { c_start_delay: 14, ..StreamSpec::new(m(&[]), m(&[1])) },
+        ],
+    ));
+    v.push(mk(
+        "late-request-after-forgotten-drop",
+        Cfg { reset_expire_now: true, ..Cfg::default() },
+        vec![
+            StreamSpec { cancel: Cancel::ClientDrop { after_chunks: 0 }, ..StreamSpec::new(m(&[2]), m(&[5, 5, 5])) },
+            StreamSpec::new(m(&[]), m(&[2])),
+            StreamSpec { c_start_delay: 10, ..StreamSpec::new(m(&[]), m(&[1])) },
+        ],
+    ));
+    // the same with the cheapest frame that fills the codec: one chained DATA frame (>= 1 KiB)
+    v.push(mk(
+        "reset-behind-chained-data",
+        Cfg::default(),
+        vec![StreamSpec::new(m(&[1500]), m(&[1])), StreamSpec { cancel: Cancel::ClientReset { after_chunks: 0, code: 8 }, ..StreamSpec::new(m(&[4]), m(&[4])) }],
+    ));
     v.push(mk(
         "reset-behind-big-data",
         Cfg::default(),
